@@ -54,7 +54,7 @@ func (u *Unit) bytesOfHeap1(h Term, s Term) Term {
 			if !ok {
 				f = Term{u.sym("bytesAt"), "Bytes"}
 				u.lines = append(u.lines, fmt.Sprintf("(declare-fun %s (Slice) Bytes)", f.S))
-				u.assume(tTrue, Term{fmt.Sprintf("(forall ((s Slice)) (! (= (blen (%s s)) (slen s)) :pattern ((%s s))))", f.S, f.S), "Bool"})
+				u.assume(tTrue, Term{fmt.Sprintf("(forall ((s Slice)) (! (=> (>= (slen s) 0) (= (blen (%s s)) (slen s))) :pattern ((%s s))))", f.S, f.S), "Bool"})
 				u.assume(tTrue, Term{fmt.Sprintf("(forall ((s Slice) (i Int)) (! (=> (and (<= 0 i) (< i (slen s))) (= (select (barr (%s s)) i) %s)) :pattern ((select (barr (%s s)) i))))",
 					f.S, sel(sel(h, Term{"(sarr s)", "Int"}), Term{"(+ (soff s) i)", "Int"}).S, f.S), "Bool"})
 				u.bytesCache["fn|"+h.S] = f
